@@ -1824,6 +1824,7 @@ _NP_FUNCS = {
     "zeros": _np_zeros,
     "empty": _np_zeros,
     "result_type": _np_result_type,
+    "intersect1d": lambda *a, **k: _np_intersect1d(*a, **k),
     "kron": _np_kron,
     "ones": _np_ones,
     "eye": _np_eye,
@@ -2286,6 +2287,13 @@ def _np_where(*a):
     xs = xa.broadcast_to(sh) if xa is not None else None
     ys = ya.broadcast_to(sh) if ya is not None else None
     return XArray(sh, [(xs.data[i] if xs is not None else exact(x)) if c else (ys.data[i] if ys is not None else exact(y)) for i, c in enumerate(cond.data)])
+
+
+def _np_intersect1d(a, b, **kw):
+    """sorted unique values present in both (concrete integer / exact values only)"""
+    A, B = XArray.from_nested(a), XArray.from_nested(b)
+    vals = sorted({exact(x) for x in A.data} & {exact(x) for x in B.data})
+    return XArray((len(vals),), vals, "i" if A.dtype == "i" or B.dtype == "i" else None)
 
 
 def _np_setdiff1d(a, b, **kw):
